@@ -32,6 +32,8 @@ INNERS = {
     "nested": (["Struct", [["h", B], ["body", ["Prefixed", B, ["name", "GreedyBytes"]]], ["t", ["name", "Int16ul"]]]],
                lambda r: {"h": r.randrange(256), "body": bytes(r.randrange(256) for _ in range(r.randrange(0, 5))), "t": r.randrange(65536)}),
     "arr": (["Array", 3, B], lambda r: [r.randrange(256) for _ in range(3)]),
+    "empty-bytes": (["Bytes", 0], lambda r: b""),                       # regions of no bytes at all
+    "empty-array": (["Array", 0, B], lambda r: []),
     "varint": (["name", "VarInt"], lambda r: r.choice([0, 1, 127, 128, 300, 2 ** 21, 2 ** 35])),
     "aligned": (["Aligned", 4, ["Struct", [["n", B], ["d", ["Bytes", ["this", "n"]]]]]], lambda r: (lambda n: {"n": n, "d": bytes(r.randrange(256) for _ in range(n))})(r.randrange(0, 5))),
 }
@@ -376,8 +378,67 @@ def run_rawcopy(ctx, case):
             os.unlink(path)
 
 
+def run_ptrstream(ctx, case):
+    """a covered region whose inner format, inside a length-prefixed substream, looks something up on the outermost stream
+    (Pointer given stream=this._root._io): both streams keep their positions, so the region reported, the digest position and
+    what follows are unaffected"""
+    import construct as C, zlib
+    hl, target, x, y, t = case["header"], case["target"], case["x"], case["y"], case["t"]
+    d = C.Struct("h" / C.Bytes(hl),
+                 "fields" / C.RawCopy(C.Prefixed(C.Byte, C.Struct("x" / C.Byte, "p" / C.Pointer(target, C.Byte, stream=C.this._root._io), "y" / C.Int16ub, "rest" / C.GreedyBytes))),
+                 "checksum" / C.Checksum(C.Int32ub, lambda data: zlib.crc32(data) & 0xffffffff, C.this.fields.data), "t" / C.Byte)
+    rest = bytes(case["rest"])
+    h = bytes(0xA0 + i for i in range(hl))
+    region = bytes([3 + len(rest), x]) + y.to_bytes(2, "big") + rest
+    msg = h + region + (zlib.crc32(region) & 0xffffffff).to_bytes(4, "big") + bytes([t])
+    absolute = target if target >= 0 else len(msg) + target
+    ctx.ev()
+    s = TracedStream(msg, pos=0)
+    try:
+        r = d.parse_stream(s)
+    except Exception as e:
+        ctx.violation("checksum-parse-rejects-valid-message:pointer-on-root-stream:" + type(e).__name__, "a correctly assembled message %s raised %s: %s" % (msg.hex(), type(e).__name__, str(e)[:120]), case)
+        return
+    f = r.fields
+    if (f.offset1, f.offset2) != (hl, hl + len(region)) or f.data != region or f.length != len(region):
+        ctx.violation("rawcopy-offsets:pointer-on-root-stream", "offsets (%r,%r) data %s; the region is [%d,%d) = %s" % (f.offset1, f.offset2, f.data.hex(), hl, hl + len(region), region.hex()), case)
+        return
+    if f.value.p != msg[absolute] or f.value.x != x or f.value.y != y or f.value.rest != rest or r.t != t or s.pos != len(msg):
+        ctx.violation("rawcopy-value:pointer-on-root-stream", "parsed %r (position %d), expected x=%d p=%d y=%d t=%d position %d" % (r, s.pos, x, msg[absolute], y, t, len(msg)), case)
+        return
+    # every single-bit corruption of the region is detected
+    for bit in range(8 * len(region)):
+        m2 = bytearray(msg)
+        m2[hl + bit // 8] ^= 1 << (bit % 8)
+        ctx.ev()
+        try:
+            d.parse(bytes(m2))
+            ctx.violation("corruption-undetected:pointer-on-root-stream", "bit %d of the covered region flipped, parse succeeded" % bit, dict(case, bit=bit))
+            return
+        except C.ConstructError:
+            pass
+        except Exception as e:
+            ctx.violation("corruption-foreign-exception:" + type(e).__name__, repr(e)[:200], dict(case, bit=bit))
+            return
+    # building: the looked-up byte lies in the header already written (the same byte is written back)
+    if 0 <= target < hl:
+        ctx.ev()
+        try:
+            out = d.build({"h": h, "fields": {"value": {"x": x, "p": h[target], "y": y, "rest": rest}}, "t": t})
+        except Exception as e:
+            ctx.violation("checksum-build-raises:pointer-on-root-stream:" + type(e).__name__, repr(e)[:200], case)
+            return
+        if out != msg:
+            ctx.violation("checksum-build-digest:pointer-on-root-stream", "built %s, expected %s" % (out.hex(), msg.hex()), case)
+            return
+    ctx.count("pointer_on_root_stream_messages")
+    ctx.nontrivial("ptrstream", hl, target, len(rest))
+
+
 def run_case(ctx, case):
-    if case["kind"] == "message":
+    if case["kind"] == "ptrstream":
+        run_ptrstream(ctx, case)
+    elif case["kind"] == "message":
         run_message(ctx, case)
     else:
         run_rawcopy(ctx, case)
@@ -412,6 +473,18 @@ def run(ctx):
                     run_case(ctx, case)
                     if k % 60 == 0 and j == 0:
                         ctx.sample(case)
+
+
+    k = 0
+    for hl in (1, 2, 5):
+        for target in (0, 1, hl - 1, hl + 1, -1, -6):
+            for nrest in (0, 1, 4):
+                k += 1
+                if not ctx.mine(k):
+                    continue
+                for j in range(ctx.pick(2, 8)):
+                    run_case(ctx, {"kind": "ptrstream", "header": hl, "target": target, "x": rng.randrange(256), "y": rng.randrange(65536), "t": rng.randrange(256),
+                                   "rest": [rng.randrange(256) for _ in range(nrest)]})
 
 
 def replay(ctx, case):
